@@ -164,7 +164,7 @@ def theorems_in(path):
     return names
 
 
-def lake(args, timeout=1800):
+def lake(args, timeout=1200):
     with Lock("lean"):
         return sh(["lake"] + args, cwd=LEAN, timeout=timeout)
 
@@ -472,9 +472,9 @@ class Check:
         write_if_changed(audit, body)
         rc, out = lean_run_file(audit)
         ax = {}
-        for m in re.finditer(r"'([^']+)' depends on axioms: \[([^\]]*)\]", out):
+        for m in re.finditer(r"'(\S+)' depends on axioms: \[([^\]]*)\]", out):
             ax[m.group(1)] = [a.strip() for a in m.group(2).replace("\n", " ").split(",") if a.strip()]
-        for m in re.finditer(r"'([^']+)' does not depend on any axioms", out):
+        for m in re.finditer(r"'(\S+)' does not depend on any axioms", out):
             ax[m.group(1)] = []
         self.cov["axioms"] = {k: v for k, v in ax.items()}
         discharged = 0
